@@ -143,8 +143,8 @@ def xr(f, i, defs=None, depth=0):
     n = f.nodes[i]
     if n["k"] == "DeclRefExpr" and n["ref"]["dk"] == "local" and depth < 6 and not n.get("t", "").endswith("]"):
         init = single_def(f, n["ref"]["id"], defs)
-        if init is not None:
-            return xr(f, init, defs, depth + 1)
+        if init is not None and f.nodes[f.strip(init)]["k"] not in ("CXXConstructExpr", "CXXTemporaryObjectExpr", "InitListExpr"):
+            return xr(f, init, defs, depth + 1)     # (an object built by a constructor is changed through its members, not re-defined)
         return n["ref"]["n"]
     k = n["k"]
     c = n["c"]
